@@ -174,7 +174,8 @@ def check_spend(case, ctx):
     vin = tx.vin[exp_idx]
     out = fund.vout[vin['n']]
     ref_err = reference_verdict(tx, fund, exp_idx, flags, c['spent_all'])
-    wout = is_witness_out(out['spk'], vin['script'])
+    # the implicit clean-stack rule of witness scripts applies where a witness script is executed, i.e. when the input carries a witness
+    wout = is_witness_out(out['spk'], vin['script']) and bool(vin['wit'])
     tv = tree_verdict(r, flags, wout)
     reached = 'refused' not in r and r.get('steps', 0) > 0
     ctx.case(key, reached or case['corr'] in ('proghash', 'witscript_bit', 'wrong_key'), dict(case_json(case), reference=ref_err or 'valid', debugger=tv or 'valid'), cls)
@@ -210,7 +211,10 @@ def classify(case, c, r, ref_err, tv, idx):
     flags = case['flags']
     if typ.startswith('p2tr') and len(tx.vin) >= 2 and ref_err is None and tv and tv.startswith('error:'):
         return 'C03-multi-input-taproot'
-    if case['fclass'] == 'activation-removed' and ref_err is None and tv is not None:
+    # only where the session layout is derived from the shape of the transactions: outputs that are (or P2SH-wrap) a witness program.
+    # A plain legacy P2SH spend honours a removed P2SH flag on the unchanged tree and stays fully checked.
+    out_ = c['fund'].vout[tx.vin[idx]['n']]
+    if case['fclass'] == 'activation-removed' and ref_err is None and tv is not None and is_witness_out(out_['spk'], tx.vin[idx]['script']):
         return 'C03-activation-flags'
     if c['meta'].get('leafkind') == 'unknown-leaf-version' and ref_err is None and tv and tv.startswith('refused'):
         return 'C03-unknown-leaf-version'
